@@ -424,6 +424,10 @@ func printSEINALus(w io.Writer, seiNALUs [][]byte, codec string, seiLevel int, a
 			if seiLevel >= 2 {
 				fmt.Fprintf(w, "  SEI raw: %s\n", hex.EncodeToString(seiNALU))
 			}
+			if len(seiNALU) < hdrLen {
+				fmt.Fprintf(w, "  SEI: NAL unit shorter than its %d-byte header\n", hdrLen)
+				continue
+			}
 			seiBytes := seiNALU[hdrLen:]
 			buf := bytes.NewReader(seiBytes)
 			seiDatas, err := sei.ExtractSEIData(buf)
